@@ -109,6 +109,8 @@ def check(case, ctx):
         ctx.count("expr:stacked_unary")
     if re.search(r"\?[^;?]*\?", text):
         ctx.count("expr:two_conditionals_in_one_expression")
+    if re.search(r"//[^\n]*endmodule|/\*(?:(?!\*/).)*endmodule", text, re.S):
+        ctx.count("comment_mentions_endmodule")
     if nl.get("keywordlike"):
         ctx.count("identifiers_containing_endmodule_or_module")
     if "$" in nl["name"]:
@@ -231,6 +233,6 @@ def gates(counters, table, tier):
     for op in ("and", "or", "xor", "xnor", "not"):
         if counters.get(f"expr:{op}", 0) < 50:
             out.append(f"operator {op} generated {counters.get(f'expr:{op}', 0)} times")
-    need = ["decoy_module_after", "decoy_module_before", "infer_module_name", "wrong_module_name", "expr:tern", "expr:nested_tern", "expr:stacked_unary", "expr:two_conditionals_in_one_expression", "expr:repeated_subexpr", "multi_instance_statement", "pin:unconnected", "pin:omitted", "pin:net", "line_comments", "block_comments", "escaped_names", "lookalike_names", "expr:wide_chain", "expr:long_names", "crlf_line_endings", "no_final_newline", "multi_instance_blackbox_statement", "blackboxes_as:tuple", "blackboxes_as:set", "identifiers_containing_endmodule_or_module", "module_name_with_dollar"] + [f"neg:{n}" for n in NEG]
+    need = ["decoy_module_after", "decoy_module_before", "infer_module_name", "wrong_module_name", "expr:tern", "expr:nested_tern", "expr:stacked_unary", "expr:two_conditionals_in_one_expression", "expr:repeated_subexpr", "multi_instance_statement", "pin:unconnected", "pin:omitted", "pin:net", "line_comments", "block_comments", "escaped_names", "lookalike_names", "expr:wide_chain", "expr:long_names", "crlf_line_endings", "no_final_newline", "multi_instance_blackbox_statement", "blackboxes_as:tuple", "blackboxes_as:set", "identifiers_containing_endmodule_or_module", "comment_mentions_endmodule", "module_name_with_dollar"] + [f"neg:{n}" for n in NEG]
     out += [f"{k} seen {counters.get(k, 0)} times" for k in need if counters.get(k, 0) < 3]
     return out
